@@ -23,7 +23,7 @@ CHECKS = {
     "C03": ["C03_Error", "C03_Failed", "C03_Cleanup", "C03_AtomicUpgrade", "C03_AtomicTarget", "C03_AtomicInstall"],
     "C06": ["C06_ReadOnly", "C06_EndSame", "C02_Foreign"],
     "C07": ["C07_Refusal", "C07_Stamped", "C07_DeleteNamed"],
-    "C09": ["C09_CreateFresh", "C09_UniqueCreator", "C09_LoserClean", "C09_Quiescent", "C01_KeyIsBody", "C01_NextRevision", "C01_OneDeployed"],
+    "C09": ["C09_CreateFresh", "C09_UniqueCreator", "C09_OneAtATime", "C09_HandsOff", "C09_LoserClean", "C09_Quiescent", "C01_KeyIsBody", "C01_NextRevision", "C01_OneDeployed"],
     "C12": ["C12_Order", "C12_DeleteBefore", "C12_DeletedByPolicy", "C12_PreHookGate", "C12_PostHookFails",
             "C12_NotInManifest", "C12_Disabled"],
 }
@@ -44,7 +44,7 @@ FAMILY = {
                 enum=["MC_EnumOwn.cfg"], enum_thorough=["MC_EnumOwn3.cfg"]),
     "C09": dict(mc="MC_Conc", gen="MC_GenConc", quick=480, thorough=4000, drivers=["secret", "memory", "configmap"], gen_split=True,
                 extra_mc=["MC_ConcDep.cfg", "MC_ConcLim.cfg"], extra_mc_thorough=["MC_ConcFault.cfg"],
-                extra_gen=["MC_GenConcDep.cfg", "MC_GenConc3.cfg", "MC_GenConcFault.cfg"]),
+                extra_gen=["MC_GenConcDep.cfg", "MC_GenConc3.cfg", "MC_GenConcFault.cfg", "MC_GenConcLate.cfg"]),
     "C12": dict(mc="MC_Hooks", gen="MC_GenHooks", quick=220, thorough=2500, drivers=["secret", "memory", "configmap"],
                 sweep=(24, 200), sweep_uninstall=True, enum=["MC_EnumHooks.cfg"]),
 }
@@ -178,11 +178,12 @@ def kf_triggers(evs):
             if mine and theirs and theirs[0][0] < i < theirs[0][1] and evs[mine[0][0]]["op"] == "install" \
                     and evs[mine[0][0]]["flags"]["replace"]:
                 # the listed finding is the window in which the name check legitimately passed: when the replacing
-                # install read the history, its last revision was failed or uninstalled (not somebody's pending record)
+                # install read the history, it was empty or its last revision was failed or uninstalled (not somebody's
+                # pending record)
                 seen = [y for y in evs[mine[0][0]:i] if y["ev"] == "call" and y["proc"] == x["proc"] and y["kind"] == "store"
                         and y["verb"] == "query"]
                 st0 = (seen[0] if seen else evs[mine[0][0]])["state"]["store"]
-                if st0 and st0[str(max(int(k) for k in st0))]["st"] in ("failed", "uninstalled"):
+                if not st0 or st0[str(max(int(k) for k in st0))]["st"] in ("failed", "uninstalled"):
                     tr.append(("KF-L24-replace-supersedes-running-install", i))
     return tr
 
@@ -192,11 +193,11 @@ KF_RELEVANT = {
     "KF-L2-upgrade-supersede-swallowed": {"C01_OneDeployed", "C01_Success"},
     "KF-L2-rollback-supersede-swallowed": {"C01_OneDeployed", "C01_Success"},
     "KF-L14-hook-create-failure-skips-policy-deletes": {"C12_DeletedByPolicy"},
-    "KF-L23-prune-deletes-pending-record-of-running-operation": {"C09_Quiescent", "C09_UniqueCreator", "C09_LoserClean",
+    "KF-L23-prune-deletes-pending-record-of-running-operation": {"C09_Quiescent", "C09_UniqueCreator", "C09_LoserClean", "C09_OneAtATime", "C09_HandsOff",
                                                                  "C01_OneDeployed", "C01_Success", "C02_Success"},
-    "KF-L24-replace-supersedes-running-install": {"C09_Quiescent", "C09_LoserClean", "C01_OneDeployed", "C01_Success",
+    "KF-L24-replace-supersedes-running-install": {"C09_Quiescent", "C09_LoserClean", "C09_OneAtATime", "C09_HandsOff", "C01_OneDeployed", "C01_Success",
                                                   "C02_Success"},
-    "KF-L22-atomic-rollback-races-with-upgrade": {"C09_Quiescent", "C01_OneDeployed", "C01_Success", "C02_Success",
+    "KF-L22-atomic-rollback-races-with-upgrade": {"C09_Quiescent", "C09_OneAtATime", "C09_HandsOff", "C01_OneDeployed", "C01_Success", "C02_Success",
                                                   "C03_AtomicUpgrade"},
     "KF-L1-replace-keeps-older-deployed": {"C01_OneDeployed", "C01_Success", "C02_Success"},
     "KF-L15-atomic-rollback-ignores-history-max": {"C01_Prune"},
@@ -406,6 +407,41 @@ def evaluate(pid, d, scs, traces, want_conformance=True):
     return res
 
 
+def preemption_sweep(raws, seed, tier):
+    """single-preemption schedules for C09: for ordered pairs (A, B) of the operations the generators drew, A is
+    stopped after k visible calls (every k), B then runs alone until it has returned, then A finishes. From an empty
+    history and from a deployed one. The interleavings random simulation rarely draws (B arrives late, while A holds
+    a pending record) are thereby enumerated; each one is a behaviour of Helm.tla like any other and is validated."""
+    ops, seen = [], set()
+    for r in raws:
+        for st in r["steps"]:
+            if "op" in st and st["op"] in ("install", "upgrade") and not st.get("fault") and not st.get("crash"):
+                key = json.dumps([st["op"], st.get("chart"), {k: v for k, v in st["flags"].items() if v}], sort_keys=True)
+                if key not in seen:
+                    seen.add(key)
+                    o = {"op": st["op"], "flags": dict(st["flags"])}
+                    if st.get("chart"):
+                        o["chart"] = st["chart"]
+                    ops.append(o)
+    ops.sort(key=lambda o: json.dumps(o, sort_keys=True))
+    rnd = random.Random(seed)
+    pairs = [(a, b) for a in ops for b in ops]
+    rnd.shuffle(pairs)
+    budget = 60 if tier == "quick" else 600          # pairs; every pair is run for every k
+    pre = [{"res": "by1", "kind": "ConfigMap", "own": "none", "f1": "x", "f2": "-", "keep": False}]
+    out = []
+    for pi, (a, b) in enumerate(pairs[:budget]):
+        deployed = (a["op"] == "upgrade" or b["op"] == "upgrade" or pi % 2 == 0) and not (a["op"] == "install" and b["op"] == "install" and pi % 2)
+        for k in range(0, 13):
+            sc = {"id": "pre%d_%d" % (pi, k), "driver": "secret", "pre": pre,
+                  "steps": [dict(a, proc=1), dict(b, proc=2)],
+                  "sched": [{"k": "b", "p": 1}] + [{"k": "c", "p": 1}] * k + [{"k": "b", "p": 2}, {"k": "r", "p": 2}, {"k": "r", "p": 1}]}
+            if deployed:
+                sc["setup"] = [{"op": "install", "chart": "cA", "flags": {}}]
+            out.append(sc)
+    return out
+
+
 def binding_self_test(d, scs, traces, accepted):
     """the two verdict channels must bind: a trace that the specification accepted is (a) corrupted in one logged
     field, (b) robbed of one call event - both must be REJECTED by trace validation - and (c) given an end state with
@@ -520,6 +556,13 @@ def run(pid, tier, seed, replay=None):
     if len(raws) < 10:
         raise Inconclusive("scenario generator produced only %d scenarios" % len(raws))
     scs = assign_drivers(raws, fam["drivers"], "s", cli=fam.get("cli", 4))
+    presweep_n = 0
+    if pid == "C09":
+        ps = preemption_sweep(scs, seed, tier)
+        for i, sc_ in enumerate(ps):
+            sc_["driver"] = ["secret", "configmap"][i % 2]
+        presweep_n = len(ps)
+        scs += ps
     # pinned scenarios: histories that once exposed a defect (regress/*.json), replayed in every run
     reg_n = 0
     for f in sorted(glob.glob(os.path.join(vlib.ROOT, "regress", "*.json"))):
@@ -652,6 +695,7 @@ def run(pid, tier, seed, replay=None):
         "schedules_not_followed_by_the_real_code": sched_div,
         "fault_sweep_scenarios_every_call_position": sweep_n,
         "pinned_regression_scenarios": reg_n,
+        "preemption_sweep_scenarios": presweep_n,
         "binding_self_test": selftest,
         "scenarios_from_exhaustive_enumeration_of_short_operation_sequences": enum_n,
         "race_detector": race,
